@@ -182,37 +182,70 @@ def harness_bin(release=False):
     return os.path.join(VERIF, "harness/target", "release" if release else "debug", "harness")
 
 
-def run_lines(binary, lines, shards=1, timeout=3600):
-    """feed lines to a line-protocol binary, return list of response lines (sharded over processes)."""
+def _run_once(binary, lines, timeout):
+    """one process; returns (answers, status) with status in ok|died|timeout; answers may be shorter than lines"""
+    import tempfile
+    with tempfile.TemporaryFile("w+") as fin, tempfile.TemporaryFile("w+") as fout:
+        fin.write("\n".join(lines) + "\n")
+        fin.seek(0)
+        p = subprocess.Popen([binary], stdin=fin, stdout=fout, stderr=subprocess.DEVNULL, text=True, env=ENV)
+        status = "ok"
+        try:
+            p.wait(timeout=timeout)
+        except subprocess.TimeoutExpired:
+            p.kill()
+            p.wait()
+            status = "timeout"
+        fout.seek(0)
+        out = fout.read().split("\n")
+        if out and out[-1] == "":
+            out.pop()
+        if status == "ok" and len(out) < len(lines):
+            status = "died"
+        return out, status
+
+
+def _run_shard(binary, lines, timeout):
+    """answers for all lines; an operation that kills the process is answered `died`, one that does not return `hang`"""
+    out, status = _run_once(binary, lines, timeout)
+    if status == "ok":
+        return out
+    if len(lines) == 1:
+        return ["died" if status == "died" else "hang"]
+    # keep what was answered for sure (the writer is block-buffered, so only complete answers before the failure count)
+    done = out[:-1] if out else []
+    done = done[: max(0, len(done))]
+    rest = lines[len(done):]
+    if len(rest) == 1:
+        return done + ["died" if status == "died" else "hang"]
+    mid = max(1, len(rest) // 2)
+    small_timeout = max(10, min(timeout, 5 + len(rest) // 1000))
+    a = _run_shard(binary, rest[:mid], small_timeout)
+    b = _run_shard(binary, rest[mid:], small_timeout)
+    return done + a + b
+
+
+def run_lines(binary, lines, shards=1, timeout=1800):
+    """feed lines to a line-protocol binary (sharded over processes); returns one answer per line"""
     if not lines:
         return []
+    import threading
     shards = max(1, min(shards, len(lines) // 2000 + 1))
     chunks = [lines[i::shards] for i in range(shards)]
-    procs = []
-    for c in chunks:
-        p = subprocess.Popen([binary], stdin=subprocess.PIPE, stdout=subprocess.PIPE, stderr=subprocess.DEVNULL, text=True, env=ENV)
-        procs.append((p, c))
-    outs = []
-    import threading
-    results = [None] * len(procs)
+    results = [None] * shards
 
-    def work(i, p, c):
-        o, _ = p.communicate("\n".join(c) + "\n", timeout=timeout)
-        results[i] = o.split("\n")
-        if results[i] and results[i][-1] == "":
-            results[i].pop()
+    def work(i):
+        results[i] = _run_shard(binary, chunks[i], timeout)
 
-    th = [threading.Thread(target=work, args=(i, p, c)) for i, (p, c) in enumerate(procs)]
+    th = [threading.Thread(target=work, args=(i,)) for i in range(shards)]
     for t in th:
         t.start()
     for t in th:
         t.join()
     out = [None] * len(lines)
     for s in range(shards):
-        r = results[s]
-        c = chunks[s]
+        r, c = results[s], chunks[s]
         if len(r) < len(c):
-            # the process died (abort): mark the first unanswered line
             r = r + ["died"] * (len(c) - len(r))
         for k in range(len(c)):
             out[s + k * shards] = r[k]
